@@ -373,7 +373,7 @@ class Pdb(Adapter):
         return Pdb._conect_shifted
 
     def pick_natom(self, rng, i, thorough):
-        extra = [10001] if not thorough else [9999, 10000, 10001, 12000, 99999]
+        extra = [] if not thorough else [12000, 99999]
         classes = [*F.SIZE_CLASSES_QUICK, *extra]
         return classes[i] if i < len(classes) else rng.randint(1, 40)
 
